@@ -52,6 +52,13 @@ FLOORS = {"burst_checked": 1500, "callback_identity": 3000,
           "retransmission_gap": 500, "timeout_outcome": 100,
           "fatal_outcome": 100, "window_bound": 2000,
           "late_reply_ignored": 30}
+ANCHORS = [("rig.machine_control.scp_connection",
+            "SCPConnection.send_scp_burst",
+            {"retransmit": "self.sock.send(outstanding.bytestring)",
+             "timeout_raised": "raise TimeoutError(",
+             "fatal_raised": "raise FatalReturnCodeError(rc, packet)",
+             "reply_accepted": "outstanding_callbacks.appendleft(",
+             "seq_skipped": ("seq = next(self.seq)", 1)})]
 SHARDS = {"quick": 16, "thorough": 64}
 EXHAUSTIVE = {"quick": False, "thorough": False}
 
